@@ -547,6 +547,8 @@ impl Inner
         {
             "true" => 0,
             "false" => 1,
+            // `kill -KILL $$`: the shell running the line is killed by a signal: no exit code at all
+            "kill" => -9,
             "cat" =>
             {
                 // cat A B ... > T    (sh: T is created/truncated first, then the inputs are appended)
@@ -859,6 +861,32 @@ impl System for MemSystem
         self.with(|i| { i.touch(path, false); i.fs.is_file(path) })
     }
 
+    #[cfg(sys_remove_file)]
+    fn remove_file(&mut self, path: &str) -> Result<(), SystemError>
+    {
+        self.wr("remove_file", path);
+        self.with(|i|
+        {
+            if i.fs.is_dir(path) { return Err(SystemError::RemoveFileFoundDir); }
+            if i.do_remove(path) { Ok(()) } else { Err(SystemError::RemoveNonExistentFile) }
+        })
+    }
+
+    #[cfg(sys_remove_dir)]
+    fn remove_dir(&mut self, path: &str) -> Result<(), SystemError>
+    {
+        if self.yields() { point("remove_dir", vec![], vec![path.to_string(), format!("{}/", path)]); }
+        self.with(|i|
+        {
+            i.touch(path, true);
+            if i.fs.is_file(path) { return Err(SystemError::ExpectedDirFoundFile); }
+            if !i.fs.is_dir(path) || path == "" { return Err(SystemError::RemoveNonExistentDir); }
+            i.fs.remove_tree(path);
+            i.record(path, MutKind::Remove { prev: None }, true);
+            Ok(())
+        })
+    }
+
     fn list_dir(&self, path: &str) -> Result<Vec<String>, SystemError>
     {
         // a listing depends on every descendant: declared as the directory prefix "path/"
@@ -949,7 +977,7 @@ impl System for MemSystem
                 {
                     out: String::new(),
                     err: String::new(),
-                    code: Some(code),
+                    code: if code == -9 { None } else { Some(code) },
                     success: code == 0,
                 }));
             }
